@@ -233,7 +233,7 @@ def ready (comp : Ssd) (n : Nat) : Bool :=
   n == (comp.xe - comp.xs + 1) * (comp.ye - comp.ys + 1)
 
 theorem ssd_e2e (blocks blocks0 : List Blk) (hs : ShapesEq blocks blocks0) (s0 e0 : Ssd) (h0 : CtlEq s0 e0)
-    (hwf : WfSize s0) (k : Nat) (c : UInt8) (data : Bytes) (hk : blocks[k]? = some (.c c data))
+    (hwf : WfSize s0) (k : Nat) (c : UInt8) (data : List UInt8) (hk : blocks[k]? = some (.c c data))
     (hc : c = 0x24 ∨ c = 0x26)
     (hready : ready ((blocks0.take k).foldl feed e0) data.length = true)
     (hpost : (blocks0.drop (k + 1)).all (fun b => !touches (planeOfCmd c) b) = true) :
@@ -246,12 +246,100 @@ theorem ssd_e2e (blocks blocks0 : List Blk) (hs : ShapesEq blocks blocks0) (s0 e
     rcases Nat.lt_or_ge k blocks.length with h | h
     · exact h
     · rw [List.getElem?_eq_none h] at hk; cases hk
+  have hget : blocks[k] = .c c data := by
+    have := List.getElem?_eq_getElem hklt
+    rw [this] at hk
+    exact Option.some.inj hk
   have hsplit : blocks = blocks.take k ++ (.c c data) :: blocks.drop (k + 1) := by
-    have := List.getElem?_eq_some_iff.1 hk
-    obtain ⟨_, hget⟩ := this
     rw [← hget]
-    exact (List.take_append_getElem_drop ..).symm ▸ by simp
-  sorry
+    exact (List.take_append_drop k blocks).symm.trans (by rw [List.drop_eq_getElem_cons hklt])
+  -- the state when the data block arrives
+  have hc1 : CtlEq ((blocks.take k).foldl feed s0) comp := run_ctlEq _ _ (ShapesEq.take k hs) _ _ h0
+  have hw1 : WfSize ((blocks.take k).foldl feed s0) := run_wf _ _ hwf
+  generalize hr1 : (blocks.take k).foldl feed s0 = r1 at hc1 hw1
+  have hrun : blocks.foldl feed s0 = (blocks.drop (k + 1)).foldl feed (r1.feed (.c c data)) := by
+    rw [hsplit, List.foldl_append, List.foldl_cons, hr1, ← hsplit]
+  rw [hrun]
+  have hpost' : (blocks.drop (k + 1)).all (fun b => !touches (planeOfCmd c) b) = true := by
+    rw [all_untouched_shape _ (ShapesEq.drop (k + 1) hs)]; exact hpost
+  rw [run_untouched _ _ _ hpost']
+  -- the companion's facts, transported
+  simp only [ready, Bool.and_eq_true, Bool.not_eq_true', beq_iff_eq, decide_eq_true_eq] at hready
+  obtain ⟨⟨⟨⟨⟨⟨⟨⟨ha, h3⟩, hx⟩, hy⟩, hxs⟩, hrw⟩, hcx⟩, hcy⟩, hl⟩ := hready
+  have e := hc1.regs
+  have ha' : r1.asleep = false := by rw [e.asleep]; exact ha
+  have h3' : r1.entry = 3 := by rw [e.entry]; exact h3
+  have key : ∀ (j : Nat) (hj : j < data.length),
+      (planeOf (planeOfCmd c) (r1.feed (.c c data)))[(r1.ys + j / (r1.xe - r1.xs + 1)) * r1.stride
+        + (r1.xs + j % (r1.xe - r1.xs + 1))]? = some data[j] := by
+    rcases hc with h24 | h26
+    · subst h24
+      have := feed_c24_window_fill r1 data ha' h3' (by rw [e.xs, e.xe]; exact hx) (by rw [e.ys, e.ye]; exact hy)
+        (by rw [e.xe, e.stride]; exact hxs) (by rw [e.ye, e.rows]; exact hrw) hw1.1 hw1.2
+        (by rw [hc1.cx, e.xs]; exact hcx) (by rw [hc1.cy, e.ys]; exact hcy)
+        (by rw [e.xs, e.xe, e.ys, e.ye]; exact hl)
+      exact this.2.2.1
+    · subst h26
+      have := feed_c26_window_fill r1 data ha' h3' (by rw [e.xs, e.xe]; exact hx) (by rw [e.ys, e.ye]; exact hy)
+        (by rw [e.xe, e.stride]; exact hxs) (by rw [e.ye, e.rows]; exact hrw) hw1.1 hw1.2
+        (by rw [hc1.cx, e.xs]; exact hcx) (by rw [hc1.cy, e.ys]; exact hcy)
+        (by rw [e.xs, e.xe, e.ys, e.ye]; exact hl)
+      exact this.2.2.1
+  have := key j hj
+  rw [e.xs, e.xe, e.ys, e.stride] at this
+  exact this
+
+/-- `ssd_e2e` with the companion's window read off as numerals (each equation is a closed
+    statement the kernel decides) -/
+theorem ssd_e2e' (blocks blocks0 : List Blk) (hs : ShapesEq blocks blocks0) (s0 e0 : Ssd) (h0 : CtlEq s0 e0)
+    (hwf : WfSize s0) (k : Nat) (c : UInt8) (data : List UInt8) (hk : blocks[k]? = some (.c c data))
+    (hc : c = 0x24 ∨ c = 0x26) (n wb stride : Nat) (hn : data.length = n)
+    (hready : ready ((blocks0.take k).foldl feed e0) n = true)
+    (hpost : (blocks0.drop (k + 1)).all (fun b => !touches (planeOfCmd c) b) = true)
+    (hxs : ((blocks0.take k).foldl feed e0).xs = 0) (hys : ((blocks0.take k).foldl feed e0).ys = 0)
+    (hxe : ((blocks0.take k).foldl feed e0).xe + 1 = wb) (hst : ((blocks0.take k).foldl feed e0).stride = stride) :
+    ∀ (j : Nat) (hj : j < data.length),
+      (planeOf (planeOfCmd c) (blocks.foldl feed s0))[(j / wb) * stride + j % wb]? = some data[j] := by
+  intro j hj
+  have := ssd_e2e blocks blocks0 hs s0 e0 h0 hwf k c data hk hc (by rw [hn]; exact hready) hpost j hj
+  rw [hxs, hys, hst] at this
+  have e : ((blocks0.take k).foldl feed e0).xe - 0 + 1 = wb := by rw [← hxe]; omega
+  rw [e] at this
+  simpa using this
+
+/-! ## assembling `ShapesEq` from positionwise facts (each provable by `rfl` with a free buffer) -/
+
+theorem shapesEq_refl : ∀ (xs : List Blk), ShapesEq xs xs
+  | [] => trivial
+  | x :: xs => ⟨ShapeEq.refl x, shapesEq_refl xs⟩
+
+theorem shapesEq_of_eq {xs ys : List Blk} (h : xs = ys) : ShapesEq xs ys := h ▸ shapesEq_refl xs
+
+theorem shapesEq_append : ∀ {a b c d : List Blk}, ShapesEq a b → ShapesEq c d → ShapesEq (a ++ c) (b ++ d)
+  | [], [], _, _, _, h => h
+  | x :: xs, y :: ys, _, _, h1, h2 => ⟨h1.1, shapesEq_append h1.2 h2⟩
+  | [], _ :: _, _, _, h, _ => absurd h (by simp [ShapesEq])
+  | _ :: _, [], _, _, h, _ => absurd h (by simp [ShapesEq])
+
+theorem split_at {α} (xs : List α) (k : Nat) (x : α) (h : xs[k]? = some x) :
+    xs = xs.take k ++ x :: xs.drop (k + 1) := by
+  have hk : k < xs.length := by
+    rcases Nat.lt_or_ge k xs.length with h' | h'
+    · exact h'
+    · rw [List.getElem?_eq_none h'] at h; cases h
+  have : xs[k] = x := by rw [List.getElem?_eq_getElem hk] at h; exact Option.some.inj h
+  rw [← this]
+  exact (List.take_append_drop k xs).symm.trans (by rw [List.drop_eq_getElem_cons hk])
+
+/-- one hole: the lists agree before position `k`, both hold a RAM data block of the same command
+    and length there, and the rests are shape-equal -/
+theorem shapesEq_hole (X Y : List Blk) (k : Nat) (c : UInt8) (hc : c = 0x24 ∨ c = 0x26)
+    (h1 : X.take k = Y.take k)
+    (hh : ∃ dx dy, X[k]? = some (.c c dx) ∧ Y[k]? = some (.c c dy) ∧ dx.length = dy.length)
+    (h2 : ShapesEq (X.drop (k + 1)) (Y.drop (k + 1))) : ShapesEq X Y := by
+  obtain ⟨dx, dy, hx, hy, hl⟩ := hh
+  rw [split_at X k _ hx, split_at Y k _ hy, h1]
+  exact shapesEq_append (shapesEq_refl _) ⟨⟨rfl, by rw [if_pos hc]; exact hl⟩, h2⟩
 
 end Ssd
 end EpdVerif
